@@ -88,12 +88,12 @@ type method struct {
 func (m method) full() string { return fmt.Sprintf("/%s/%s", m.svc.Desc.ServiceName, m.desc.Name()) }
 
 type triple struct {
-	noun            string
-	get, upd, pull  method
-	res             protoreflect.MessageDescriptor // the resource message
-	updField        protoreflect.FieldDescriptor   // field of the update request holding the resource
-	changeField     protoreflect.FieldDescriptor   // field of the change message holding the resource
-	changesField    protoreflect.FieldDescriptor   // repeated changes field of the pull response
+	noun           string
+	get, upd, pull method
+	res            protoreflect.MessageDescriptor // the resource message
+	updField       protoreflect.FieldDescriptor   // field of the update request holding the resource
+	changeField    protoreflect.FieldDescriptor   // field of the change message holding the resource
+	changesField   protoreflect.FieldDescriptor   // repeated changes field of the pull response
 }
 
 // discover the Get/Update/Pull triples among all services the server implements
